@@ -70,10 +70,18 @@ class C05(Prop):
             out.append(self.mk(G.relevant_combo(traits, combo), rng.choice(['named', 'tuple', 'variant', 'after-same-type', 'second-variant']),
                                rng.choice(['attr', 'derive']), traits, -1))
         # misplaced arguments
+        mis = []
         for a, arg, where, mode in itertools.product(G.ATTRS, ['ignore', 'reverse', 'key', 'by'], ['type', 'variant'],
                                                      ['attr', 'derive']):
             if arg == 'reverse' and a not in ('ord', 'partial_ord'):
                 continue
+            mis.append((a, arg, where, mode, G.TRAITS))
+            # ... and with every single derived trait the attribute acts on (the attribute is then parsed although
+            # "its own" trait is not derived)
+            for t in G.TRAITS:
+                if t in G.AFFECTS[a]:
+                    mis.append((a, arg, where, mode, [t]))
+        for a, arg, where, mode, mtraits in mis:
             combo = {a: arg}
             attrs = G.combo_attrs(combo)
             f = sx.field(sx.tid('u8'))
@@ -81,11 +89,12 @@ class C05(Prop):
                 it = sx.struct('X', sx.unnamed([f]), attrs=attrs)
             else:
                 it = sx.enum('E', [sx.variant('A', sx.unnamed([f]), attrs=attrs), sx.variant('B')])
-            tl = [(t, None) for t in G.TRAITS]
+            tl = [(t, None) for t in mtraits]
             req = sx.inv_attr(sx.dx(tl), it) if mode == 'attr' else sx.inv_derive(
                 it.replace('(struct (', '(struct (' + sx.a_derive_ex(sx.dx(tl)) + ' ', 1)
                 if where == 'type' else it.replace('(enum (', '(enum (' + sx.a_derive_ex(sx.dx(tl)) + ' ', 1))
-            out.append((req, dict(features=('misplaced', a, arg, where, mode), traits=G.TRAITS, misplaced=True,
+            out.append((req, dict(features=('misplaced', a, arg, where, mode, '+'.join(mtraits) if len(mtraits) < 5 else 'all'),
+                                  traits=list(mtraits), misplaced=True,
                                   nontrivial=True)))
         return out
 
